@@ -389,7 +389,7 @@ func TestSampledPrograms(t *testing.T) {
 	rec.SetRule(ruleB)
 	w := map[string]int{"Commit": 0, "Println": 0, "Hint": 0, "Cmp": 1, "AssertLE": 1, "Sum": 0, "Select": 12, "Lookup2": 8, "FromBinary": 8, "MulAcc": 8, "Xor": 8, "And": 8, "Or": 8, "IsZero": 8}
 	g := prog.Gen(prog.GenConfig{Q: f47.Q, MinIn: 1, MaxIn: 4, MinOps: 1, MaxOps: 3, MaxOut: 2, Kinds: []string{"p", "p", "c"}, Weights: w, PFail: 35})
-	rec.Check(t, "csp", ev.N(2500, 100000), func(rt *rapid.T) {
+	rec.Check(t, "csp", ev.N(5000, 100000), func(rt *rapid.T) {
 		p := g.Draw(rt, "prog")
 		c := Case{Prog: p, Builder: rapid.SampledFrom([]string{prog.R1CS, prog.SCS}).Draw(rt, "builder")}
 		rec.Begin("csp", c)
@@ -510,7 +510,7 @@ func TestAdversarialHints(t *testing.T) {
 	rec := ev.Get(ID)
 	rec.SetRule(ruleC)
 	fields := []string{"bn254", "bls12-377", "bw6-761", "bls12-381"}
-	rec.Check(t, "adv", ev.N(500, 20000), func(rt *rapid.T) {
+	rec.Check(t, "adv", ev.N(1000, 20000), func(rt *rapid.T) {
 		fn := rapid.SampledFrom(fields).Draw(rt, "field")
 		f := prog.FieldByName(fn)
 		bitlen := f.Q.BitLen()
